@@ -92,6 +92,12 @@ def cases(draw, tier):
     et = _equal_totals(spec["rows"])
     untyped = spec["type"] is None
     nroutes = draw(st.sampled_from([2, 2, 3]))
+    # sequence-valued metadata handed over as tuples; group metadata
+    spec["md_tuples"] = draw(st.sampled_from([False, False, True]))
+    if draw(st.sampled_from([False, False, True])):
+        spec["obs_gmd"] = {"tree": ["newick", "((a,b),c);"]}
+        spec["samp_gmd"] = {"graph": ["text", "g"]} \
+            if draw(st.booleans()) else None
     case = {"kind": kind, "spec": spec,
             "routes": [draw(routes(untyped, et)) for _ in range(nroutes)],
             "access": draw(st.lists(ACCESS, max_size=4)),
@@ -218,6 +224,10 @@ def _exports(t):
     before_md = (observe.md_list(t, "observation"),
                  observe.md_list(t, "sample"))
     before_eq = t.copy()
+    if not (before_eq == t) or not (t == before_eq):
+        raise Violation("copy-equals-original", "a copy does not compare "
+                        "equal to its original: %r" %
+                        (t.descriptive_equality(before_eq),))
     out["tsv"] = t.to_tsv()
     # with one observation-metadata column; a category only some (or none)
     # of the observations carry is exported as missing
@@ -236,6 +246,10 @@ def _exports(t):
         t.to_hdf5(f, "vf", creation_date=DATE)
         d = h5spec.decode(f)
     d.pop("problems", None)
+    # (group metadata is not content in the sense of the statement: copy()
+    # and the reorderings do not carry it, and == ignores it)
+    for ax in ("observation", "sample"):
+        d[ax].pop("group_metadata", None)
     out["hdf5"] = d
     # exporting is read-only
     if (observe.md_list(t, "observation"),
